@@ -15,6 +15,7 @@ package main
 // trace the Lean model computes from the same read results and verdicts.
 
 import (
+	"errors"
 	"fmt"
 	"io"
 	"net"
@@ -22,6 +23,7 @@ import (
 	"strings"
 	"sync"
 	"sync/atomic"
+	"syscall"
 	"testing"
 	"time"
 
@@ -65,8 +67,9 @@ func c03Fail(out *vlib.Out, sig, what, replay string) {
 	out.OracleFail(sig, what, replay)
 }
 
-// c03Check evaluates the property on the recorded calls of one finished (or hung) run.
-func c03Check(out *vlib.Out, c *c03Case, run *c34Run, cn c34Canon, hung bool) {
+// c03Check evaluates the property on the recorded calls of one finished (or hung) run; it reports
+// whether the oracle failed.
+func c03Check(out *vlib.Out, c *c03Case, run *c34Run, cn c34Canon, hung bool) (failed bool) {
 	if c.geo == "cc" || c.geo == "asn" || c.geo == "nonip" {
 		out.Count("oracle:skipped-geoip-hypothesis")
 		return
@@ -80,8 +83,10 @@ func c03Check(out *vlib.Out, c *c03Case, run *c34Run, cn c34Canon, hung bool) {
 		for _, e := range run.conn.log.snapshot() {
 			switch e.kind {
 			case 'W':
+				failed = true
 				c03Fail(out, "C03:error-path-write", "bytes written on the transport-error path", rp)
 			case 'C':
+				failed = true
 				c03Fail(out, "C03:error-path-close", "Close on the transport-error path", rp)
 			case 'D':
 				if armed.IsZero() {
@@ -90,12 +95,14 @@ func c03Check(out *vlib.Out, c *c03Case, run *c34Run, cn c34Canon, hung bool) {
 			}
 		}
 		if cn.sawErr && (hung || armed.IsZero() || run.tRet.Before(armed)) {
+			failed = true
 			c03Fail(out, "C03:error-path-early-return", "the handler returned before the deadline after a transport error", rp)
 		}
 		return
 	}
 	out.Checked()
 	fail := func(what, detail string) {
+		failed = true
 		c03Fail(out, "C03:"+what, fmt.Sprintf("%s: %s (class %s, phantom %s, %d registrations)", what, detail, c.class, c.phantom, run.count), rp)
 	}
 	if hung {
@@ -111,6 +118,11 @@ func c03Check(out *vlib.Out, c *c03Case, run *c34Run, cn c34Canon, hung bool) {
 	var lastRead *c34Ent
 	for i := range ents {
 		e := &ents[i]
+		if e.inWrap && e.kind != 'W' {
+			// a transport that has not identified itself may look at the buffered bytes only
+			fail("transport-touched-connection", fmt.Sprintf("a transport called %q on the connection while classifying an untagged stream", string(e.kind)))
+			return
+		}
 		switch e.kind {
 		case 'W':
 			fail("write", fmt.Sprintf("%d bytes written to the peer", e.n))
@@ -182,9 +194,41 @@ func c03Check(out *vlib.Out, c *c03Case, run *c34Run, cn c34Canon, hung bool) {
 	if total != want {
 		fail("stopped-reading", fmt.Sprintf("read %d of the %d bytes the peer sent", total, want))
 	}
+	return
 }
 
+func c03Failed() bool {
+	c03FailMu.Lock()
+	defer c03FailMu.Unlock()
+	return len(c03Fails) > 0
+}
+
+// c03GiveUp: the generators may stop early only when the run already has an oracle failure to report
+// (a handler that sleeps makes every further probe take seconds); slowness alone never reduces coverage.
+func c03GiveUp() bool { return c03Slow.Load() >= 12 && c03Failed() }
+
+// c03StallLimit: on the virtual-time connection every read is answered at once, so a handler that does
+// what the property says needs microseconds of real time per probe. A probe that takes longer than this
+// (the handler sleeps instead of reading: the shortest deadline is 5 s) is run again, twice; only if it
+// stalls every time is it reported.
+const c03StallLimit = 3 * time.Second
+
 func c03Run(out *vlib.Out, w *c34World, c *c03Case, limit time.Duration) {
+	for attempt := 0; ; attempt++ {
+		failed, took := c03RunOnce(out, w, c, limit, attempt == 0)
+		if c.tagged || failed || took <= c03StallLimit {
+			return
+		}
+		out.Count("stalled-probe(>3s)")
+		if attempt == 2 {
+			c03Fail(out, "C03:stalled-instead-of-reading", fmt.Sprintf("the handler took %v of real time, three times in a row, on a connection that answers every read at once: it does not keep reading (class %s, phantom %s)",
+				took.Round(time.Millisecond), c.class, c.phantom), c.replay(vlib.Seed()))
+			return
+		}
+	}
+}
+
+func c03RunOnce(out *vlib.Out, w *c34World, c *c03Case, limit time.Duration, record bool) (failed bool, took time.Duration) {
 	var remote net.Addr = c34Peer(40404)
 	geo := c.geo
 	if geo == "nonip" {
@@ -192,12 +236,6 @@ func c03Run(out *vlib.Out, w *c34World, c *c03Case, limit time.Duration) {
 	}
 	conn := newC34Scripted(c.evs, remote)
 	began := time.Now()
-	defer func() {
-		if !c.tagged && time.Since(began) > 2*time.Second {
-			c03Slow.Add(1)
-			out.Count("slow-probe(>2s)")
-		}
-	}()
 	run, done := w.start(conn, c.phantom, geo)
 	hung := false
 	select {
@@ -208,8 +246,16 @@ func c03Run(out *vlib.Out, w *c34World, c *c03Case, limit time.Duration) {
 		conn.Close()
 		<-done
 	}
+	took = time.Since(began)
+	if !c.tagged && took > 2*time.Second {
+		c03Slow.Add(1)
+		out.Count("slow-probe(>2s)")
+	}
 	cn := w.canon(run)
-	c03Check(out, c, run, cn, hung)
+	failed = c03Check(out, c, run, cn, hung)
+	if !record {
+		return
+	}
 	out.Case(cn.modelLine, cn.implOut, cn.nontriv)
 	out.Count("class:" + c.class)
 	switch c.phantom {
@@ -243,6 +289,7 @@ func c03Run(out *vlib.Out, w *c34World, c *c03Case, limit time.Duration) {
 	default:
 		out.Count("branch:read-until-error")
 	}
+	return
 }
 
 // ---- generators
@@ -386,14 +433,14 @@ func c03TagBits(reg *c34Reg, flight []byte) (out, padding []int) {
 	return
 }
 
-func c03Phantoms(r *vlib.Rand, nClients int) string {
+func c03Phantoms(r *vlib.Rand, nPairs int) string {
 	switch r.Intn(8) {
 	case 0, 1:
 		return c34PhNone
 	case 2:
 		return c34PhInvalid
 	case 3, 4:
-		return c34PhOne(r.Intn(nClients / 2))
+		return c34PhOne(r.Intn(nPairs))
 	case 5:
 		return c34PhV6
 	default:
@@ -412,7 +459,7 @@ func (g *c03Gen) probe(class, phantom string, data []byte) {
 	g.emit(c03Case{phantom: phantom, geo: "ok", evs: c03End(g.r, c03Segment(g.r, data)), class: class})
 }
 
-func (g *c03Gen) anyPhantom() string { return c03Phantoms(g.r, len(g.clients)) }
+func (g *c03Gen) anyPhantom() string { return c03Phantoms(g.r, g.w.nPairs) }
 
 func (g *c03Gen) flight(reg *c34Reg, override int32) []byte {
 	ws, err := g.w.flightWrites(reg, override)
@@ -527,9 +574,9 @@ func (g *c03Gen) wrongPlace(thorough bool) {
 		fl := g.flight(reg, -2)
 		others := []string{c34PhNone, c34PhInvalid, c34PhV6}
 		if reg.phantom == c34PhMany {
-			others = append(others, c34PhOne(((ci/2)+1)%((len(g.clients)-3)/2)))
+			others = append(others, c34PhOne(((ci/2)+1)%g.w.nPairs))
 		} else {
-			others = append(others, c34PhOne(((ci/2)+3)%((len(g.clients)-3)/2)))
+			others = append(others, c34PhOne(((ci/2)+3)%g.w.nPairs))
 		}
 		for _, ph := range others {
 			if ph == reg.phantom {
@@ -626,6 +673,21 @@ func c03ErrorPath(out *vlib.Out, n int, wg *sync.WaitGroup) {
 }
 
 // ---- real loopback sockets, real time
+//
+// Probes are dialled to a listener on 127.0.0.1 and one on [::1] (an IPv6 peer address). The accepting
+// side hands every other connection to the handler as the RAW *net.TCPConn — the type the station's
+// accept loop passes, so that code behind a `clientConn.(*net.TCPConn)` assertion runs — and the others
+// wrapped in the recording connection (call log, model line). The phantom rotates per connection among
+// the many-registrations phantom, a phantom without registrations (the count<1 drain), one with only
+// unvalidated registrations, one with a single registration and the IPv6 phantom. The client side
+// observes what a prober can: no byte ever arrives, the connection is not closed before 5 s, and it ends
+// with an orderly close (FIN), not a reset.
+type c03RealRun struct {
+	run     *c34Run
+	raw     bool
+	phantom string
+}
+
 func c03RealSockets(out *vlib.Out, n int, wg *sync.WaitGroup) {
 	wg.Add(1)
 	go func() {
@@ -639,12 +701,21 @@ func c03RealSockets(out *vlib.Out, n int, wg *sync.WaitGroup) {
 			out.Note("real sockets: " + err.Error())
 			return
 		}
-		ln, err := net.Listen("tcp", "127.0.0.1:0")
-		if err != nil {
-			out.Note("real sockets: " + err.Error())
+		var lns []net.Listener
+		for _, a := range []string{"127.0.0.1:0", "[::1]:0"} {
+			ln, err := net.Listen("tcp", a)
+			if err != nil {
+				out.Note("real sockets: no listener on " + a + ": " + err.Error())
+				out.Count("real-socket:no-listener:" + a)
+				continue
+			}
+			defer ln.Close()
+			lns = append(lns, ln)
+		}
+		if len(lns) == 0 {
 			return
 		}
-		defer ln.Close()
+		phantoms := []string{c34PhMany, c34PhNone, c34PhInvalid, c34PhOne(0), c34PhV6}
 		r := vlib.NewRand("C03/real")
 		type probe struct {
 			data  []byte
@@ -653,29 +724,44 @@ func c03RealSockets(out *vlib.Out, n int, wg *sync.WaitGroup) {
 		}
 		var inner sync.WaitGroup
 		var srvMu sync.Mutex
-		srv := map[string]*c34Run{} // by client address
-		go func() {
-			for {
-				c, err := ln.Accept()
-				if err != nil {
-					return
+		var accepted int
+		srv := map[string]*c03RealRun{} // by client address
+		for _, ln := range lns {
+			ln := ln
+			go func() {
+				for {
+					c, err := ln.Accept()
+					if err != nil {
+						return
+					}
+					inner.Add(1)
+					go func() {
+						defer inner.Done()
+						srvMu.Lock()
+						k := accepted
+						accepted++
+						srvMu.Unlock()
+						rr := &c03RealRun{raw: k%2 == 1, phantom: phantoms[(k/2)%len(phantoms)]}
+						ip := net.ParseIP(rr.phantom)
+						var hc net.Conn = c
+						var conn *c34Conn
+						if !rr.raw {
+							conn = newC34Real(c, c.RemoteAddr())
+							hc = conn
+						}
+						rr.run = &c34Run{conn: conn, phantom: rr.phantom, geoMode: "ok", count: w.rm.CountRegistrations(ip), t0: time.Now()}
+						srvMu.Lock()
+						srv[c.RemoteAddr().String()] = rr
+						srvMu.Unlock()
+						w.cm.handleNewTCPConn(w.rm, hc, ip)
+						srvMu.Lock()
+						rr.run.tRet, rr.run.returned = time.Now(), true
+						srvMu.Unlock()
+						c.Close() // what handleNewConn's deferred Close does
+					}()
 				}
-				inner.Add(1)
-				go func() {
-					defer inner.Done()
-					conn := newC34Real(c, c.RemoteAddr())
-					run := &c34Run{conn: conn, phantom: c34PhMany, geoMode: "ok", count: w.rm.CountRegistrations(net.ParseIP(c34PhMany)), t0: time.Now()}
-					srvMu.Lock()
-					srv[c.RemoteAddr().String()] = run
-					srvMu.Unlock()
-					w.cm.handleNewTCPConn(w.rm, conn, net.ParseIP(c34PhMany))
-					srvMu.Lock()
-					run.tRet, run.returned = time.Now(), true
-					srvMu.Unlock()
-					c.Close() // what handleNewConn's deferred Close does
-				}()
-			}
-		}()
+			}()
+		}
 		for i := 0; i < n; i++ {
 			p := probe{data: c03Lookalike(r), segs: r.Range(1, 4), style: "silent"}
 			if r.Chance(1, 4) {
@@ -684,11 +770,15 @@ func c03RealSockets(out *vlib.Out, n int, wg *sync.WaitGroup) {
 			if r.Chance(1, 8) {
 				p.style = []string{"eof", "rst"}[r.Intn(2)]
 			}
+			ln := lns[0]
+			if len(lns) > 1 && i%3 == 2 {
+				ln = lns[1] // a third of the probes from an IPv6 peer address
+			}
 			inner.Add(1)
-			go func(i int, p probe) {
+			go func(i int, p probe, addr string) {
 				defer inner.Done()
 				start := time.Now()
-				c, err := net.Dial("tcp", ln.Addr().String())
+				c, err := net.Dial("tcp", addr)
 				if err != nil {
 					out.Note("real sockets dial: " + err.Error())
 					return
@@ -715,57 +805,83 @@ func c03RealSockets(out *vlib.Out, n int, wg *sync.WaitGroup) {
 				}
 				var got []byte
 				var endAt time.Time
+				var rerr error
 				if p.style != "rst" {
 					_ = c.SetReadDeadline(start.Add(40 * time.Second))
-					got, _ = io.ReadAll(c)
+					got, rerr = io.ReadAll(c)
 					endAt = time.Now()
 				}
 				// wait for the server side to finish and evaluate
-				var run *c34Run
+				var rr *c03RealRun
 				for k := 0; k < 4000; k++ {
 					srvMu.Lock()
-					run = srv[local]
-					finished := run != nil && run.returned
+					rr = srv[local]
+					finished := rr != nil && rr.run.returned
 					srvMu.Unlock()
 					if finished {
 						break
 					}
 					time.Sleep(10 * time.Millisecond)
 				}
-				cs := c03Case{phantom: c34PhMany, geo: "ok", class: "real-socket-" + p.style, world: -100}
 				rp := fmt.Sprintf("c03real|seed=%d|style=%s|segs=%d|data=%s", vlib.Seed(), p.style, p.segs, vlib.Hex(p.data))
 				out.Checked()
 				srvMu.Lock()
-				finished := run != nil && run.returned
+				finished := rr != nil && rr.run.returned
 				srvMu.Unlock()
 				if !finished {
 					c03Fail(out, "C03:hang", "real socket: the handler had not returned after 40 s", rp)
 					return
 				}
+				run := rr.run
+				how := "recorded connection"
+				if rr.raw {
+					how = "raw *net.TCPConn"
+				}
+				where := fmt.Sprintf("%s, phantom %s (%d registrations), peer %s", how, rr.phantom, run.count, local)
 				if len(got) > 0 {
-					c03Fail(out, "C03:write", fmt.Sprintf("real socket: the peer received %d bytes", len(got)), rp)
+					c03Fail(out, "C03:write", fmt.Sprintf("real socket: the peer received %d bytes (%s)", len(got), where), rp)
 				}
 				if p.style == "silent" {
 					if d := endAt.Sub(start); d < 5*time.Second {
-						c03Fail(out, "C03:early-close", fmt.Sprintf("real socket: connection ended after %v", d), rp)
+						c03Fail(out, "C03:early-close", fmt.Sprintf("real socket: connection ended after %v (%s)", d, where), rp)
 					}
 					if d := run.tRet.Sub(run.t0); d < 5*time.Second {
-						c03Fail(out, "C03:early-return", fmt.Sprintf("real socket: handler returned after %v", d), rp)
+						c03Fail(out, "C03:early-return", fmt.Sprintf("real socket: handler returned after %v (%s)", d, where), rp)
 					} else if d > 12*time.Second {
 						out.Count("real-socket:returned-later-than-12s")
 					}
+					// everything the peer sent was read long before the deadline, so the close is orderly; a
+					// reset here means data was left unread or the socket was set to abort
+					if errors.Is(rerr, syscall.ECONNRESET) {
+						c03Fail(out, "C03:reset-instead-of-close", fmt.Sprintf("real socket: the connection was reset, not closed (%s)", where), rp)
+					}
 				}
+				out.Count("class:real-socket-" + p.style)
+				phName := map[string]string{c34PhMany: "many", c34PhNone: "none", c34PhInvalid: "unvalidated-only", c34PhV6: "v6"}[rr.phantom]
+				if phName == "" {
+					phName = "one"
+				}
+				out.Count("real-socket:phantom:" + phName)
+				if strings.HasPrefix(local, "[") {
+					out.Count("real-socket:peer-v6")
+				} else {
+					out.Count("real-socket:peer-v4")
+				}
+				if rr.raw {
+					out.Count("real-socket:raw-tcpconn")
+					return
+				}
+				out.Count("real-socket:recorded")
 				// the recorded reads are the script of the model line
 				cn := w.canon(run)
 				for _, e := range run.conn.log.snapshot() {
 					if e.kind == 'W' || e.kind == 'C' || e.kind == 'Z' || e.kind == 'r' || e.kind == 'w' {
 						c03Fail(out, "C03:"+map[byte]string{'W': "write", 'C': "close", 'Z': "deadline-changed", 'r': "deadline-changed", 'w': "deadline-changed"}[e.kind],
-							"real socket: call "+string(e.kind)+" on the client connection", rp)
+							"real socket: call "+string(e.kind)+" on the client connection ("+where+")", rp)
 					}
 				}
 				out.Case(cn.modelLine, cn.implOut, true)
-				out.Count("class:" + cs.class)
-			}(i, p)
+			}(i, p, ln.Addr().String())
 			time.Sleep(2 * time.Millisecond)
 		}
 		inner.Wait()
@@ -811,8 +927,8 @@ func TestVerifC03(t *testing.T) {
 		go func(wi int) {
 			defer wg.Done()
 			for c := range chans[wi] {
-				if c03Slow.Load() >= 12 {
-					out.Count("skipped-after-12-slow-probes")
+				if c03GiveUp() {
+					out.Count("skipped-after-12-slow-probes-and-an-oracle-failure")
 					continue
 				}
 				c.world = wi
@@ -824,8 +940,8 @@ func TestVerifC03(t *testing.T) {
 	for wi := 0; wi < nW; wi++ {
 		wi := wi
 		gens[wi] = &c03Gen{r: vlib.NewRand(fmt.Sprintf("C03/gen%d", wi)), w: worlds[wi], clients: clientsOf[wi], emit: func(c c03Case) {
-			if c03Slow.Load() >= 12 {
-				out.Count("skipped-after-12-slow-probes")
+			if c03GiveUp() {
+				out.Count("skipped-after-12-slow-probes-and-an-oracle-failure")
 				return
 			}
 			chans[wi] <- c
